@@ -216,7 +216,7 @@ def run_property(prop, tier, *, jobs=None, only=None, verbose=False,
         out = ""
         if has_body:
             rc, out = run_replay(path)
-            reproduced = rc == 1
+            reproduced = rc == 1 and "REPRODUCED" in out
             with open(path, "a") as f:
                 f.write(f"\n# replay exit status when written: {rc}\n")
                 f.write("# " + out.replace("\n", "\n# ")[:2500] + "\n")
@@ -256,7 +256,7 @@ def run_property(prop, tier, *, jobs=None, only=None, verbose=False,
             reproduced = False
             if fl.get("replay_src"):
                 rc, out = run_replay(path)
-                reproduced = rc == 1
+                reproduced = rc == 1 and "REPRODUCED" in out
             violations.append(dict(key=key, replay=path,
                                    reproduced=reproduced,
                                    info=fl.get("what")))
